@@ -22,7 +22,8 @@ EXPLANATION = (
     'sender the insertion is " %d %s %u" bound to the request\'s client id, address text and remote port, '
     'and each call writes the message, one newline and one flush on every path; (WMC.2) the address text is '
     'written only by the address printer applied to the request\'s own remote address (or the address '
-    'stored there in the same step) and the port only from the announce line; (WIRE.1) the version banner '
+    'stored there in the same step) and the port only from the announce line; (GRD.2) the printer takes its '
+    'dotted-quad branch only for addresses whose words 0-4 are zero, word 5 is 0/0xffff and word 6 is non-zero; (WIRE.1) the version banner '
     'is the first send of a function that is only ever a libevent callback.')
 ASSUMPTIONS = ['clang 14 CFG', 'stdout is only reachable through the C library stream object or fd 1']
 
@@ -258,6 +259,66 @@ def address_producers(P, R):
     R.floor('C09.WMC.2', 4)
 
 
+def dotted_quad_guard(P, R):
+    """GRD.2: the printer renders an address as a dotted quad only when words 0-4 are zero, word 5
+    is 0 or 0xffff and word 6 is non-zero - otherwise the text (re-read as IPv4-mapped) denotes a
+    different address than the one announced, e.g. ::1 -> 0.0.0.1."""
+    f = P.need_fn('irc_ntop')
+    quad = [s for s in f.calls('snprintf') if (rules.fmt_literal(s.ev, 2) or '').count('.') == 3 and '%' in (rules.fmt_literal(s.ev, 2) or '')]
+    if not quad:
+        R.broke('C09.GRD.2: the address printer has no dotted-quad branch')
+        return
+
+    def words(e):
+        """(set of 16-bit word indices covered) for an access addr->in6*[k]."""
+        if not (isinstance(e, dict) and e.get('k') == 'idx' and e['base'].get('k') == 'mem' and const_of(e['index']) is not None):
+            return None
+        fld, k = e['base']['field'], const_of(e['index'])
+        if fld in ('in6', 'in6_16'):
+            return {k}
+        if fld == 'in6_32':
+            return {2 * k, 2 * k + 1}
+        return None
+
+    def on_edge(st, e):
+        r = rules.edge_rel(e)
+        if not r:
+            return st
+        zero, w5, w6 = st
+        l, op, rr = r
+        ws = words(l)
+        c = const_of(rr)
+        if ws is None or c is None:
+            return st
+        zero = set(zero)
+        if op == '==' and c == 0:
+            zero |= ws
+            if ws == {5}:
+                w5 = True
+            if 6 in ws:
+                if w6 is True:
+                    return None
+                w6 = False
+        if op == '!=' and c == 0:
+            if ws & zero and len(ws) == 1:
+                return None
+            if ws == {6}:
+                if w6 is False:
+                    return None
+                w6 = True
+        if op == '==' and c == 65535 and ws == {5}:
+            w5 = True
+        return (frozenset(zero), w5, w6)
+    before, _, _, _ = f.forward((frozenset(), False, None), None, on_edge)
+    for s in quad:
+        sts = before.get(s.key, set())
+        ok0 = bool(sts) and all({0, 1, 2, 3, 4} <= set(z) for z, a, b in sts)
+        R.ob('C09.GRD.2', ok0, s, 'dotted-quad text only for addresses whose first five 16-bit words are zero', key='v4:zero-prefix')
+        R.ob('C09.GRD.2', bool(sts) and all(a for z, a, b in sts), s, 'dotted-quad text only when word 5 is 0 or 0xffff', key='v4:word5')
+        R.ob('C09.GRD.2', bool(sts) and all(b is True for z, a, b in sts), s, 'dotted-quad text only when word 6 is non-zero (::1 must not become 0.0.0.1, which denotes ::ffff:0.0.0.1)', key='v4:word6')
+    R.floor('C09.GRD.2', 3)
+
+
 def banner(P, R):
     vs = [(s, fmt) for s, fmt, ad in core.send_sites(P) if core.first_word(fmt) == 'V']
     R.ob('C09.WIRE.1', len(vs) == 1, vs[0][0] if vs else core.sender(P), 'the version banner is sent from exactly one place', key='banner-site')
@@ -282,5 +343,6 @@ def run(P, R, tier):
     kind_table(P, R)
     sender_body(P, R)
     address_producers(P, R)
+    dotted_quad_guard(P, R)
     banner(P, R)
     return EXPLANATION, ASSUMPTIONS
